@@ -38,6 +38,10 @@ inline bool private_netns() {                                    // best effort:
     bool ok = ioctl(s, SIOCGIFFLAGS, &ifr) == 0;
     if (ok) { ifr.ifr_flags |= IFF_UP | IFF_RUNNING; ok = ioctl(s, SIOCSIFFLAGS, &ifr) == 0; }
     close(s);
+    if (ok) {                                                    // many short connections: TIME_WAIT keeps their ports for a minute
+        int f = open("/proc/sys/net/ipv4/ip_local_port_range", O_WRONLY);
+        if (f >= 0) { ssize_t w = write(f, "2000 65000\n", 11); (void)w; close(f); }
+    }
     return ok;
 }
 
@@ -61,7 +65,7 @@ inline double mono() { timespec ts; clock_gettime(CLOCK_MONOTONIC, &ts); return 
 // TCP states (include/net/tcp_states.h)
 enum { ST_ESTABLISHED = 1, ST_SYN_SENT, ST_SYN_RECV, ST_FIN_WAIT1, ST_FIN_WAIT2, ST_TIME_WAIT, ST_CLOSE, ST_CLOSE_WAIT, ST_LAST_ACK, ST_LISTEN, ST_CLOSING };
 
-struct SockView { int fd; int state; unsigned lport, rport; unsigned long long sent, received, notsent; };
+struct SockView { int fd; int state; unsigned lport, rport; unsigned long long sent, received, notsent, unacked; };
 
 inline int tcp_sockets(SockView *v, int cap, int maxfd = 256) {
     int n = 0, closed_run = 0;
@@ -77,7 +81,7 @@ inline int tcp_sockets(SockView *v, int cap, int maxfd = 256) {
         if (getsockname(fd, (sockaddr *)&a, &al) == 0) s.lport = ntohs(a.sin_port);
         al = sizeof a;
         if (getpeername(fd, (sockaddr *)&a, &al) == 0) s.rport = ntohs(a.sin_port);
-        s.sent = ti.tcpi_bytes_sent; s.received = ti.tcpi_bytes_received; s.notsent = ti.tcpi_notsent_bytes;
+        s.sent = ti.tcpi_bytes_sent; s.received = ti.tcpi_bytes_received; s.notsent = ti.tcpi_notsent_bytes; s.unacked = ti.tcpi_unacked;
         v[n++] = s;
     }
     return n;
@@ -87,8 +91,8 @@ inline bool got_fin(int st) { return st == ST_CLOSE_WAIT || st == ST_LAST_ACK ||
 
 // Bounded wait until no TCP socket of this process is in the middle of a handshake.
 // With pairs: ... and until everything one end of a loopback connection has sent (bytes, end of stream) has arrived at the
-// other end; an end whose other end is not open in this process must have seen the end of the stream (each_spin accepts the
-// connections that are still in a listener's queue).  Acknowledgements are not waited for: the kernel delays them.
+// other end; an end whose other end is not open in this process must have seen the end of the stream, unless it is one of the
+// connections still waiting in a listener's accept queue (each_spin may accept them).  Acknowledgements are not waited for: the kernel delays them.
 inline void settle(bool pairs = true, void (*each_spin)() = nullptr) {
     double t0 = mono();
     for (int spin = 0;; ++spin) {
@@ -96,17 +100,20 @@ inline void settle(bool pairs = true, void (*each_spin)() = nullptr) {
         SockView v[64];
         int n = tcp_sockets(v, 64);
         bool busy = false;
+        int unpaired = 0, queued = 0;                       // ends without a visible other end / connections waiting in accept queues
         for (int i = 0; i < n && !busy; ++i) {
             const SockView &a = v[i];
             if (a.state == ST_SYN_SENT || a.state == ST_SYN_RECV) { busy = true; break; }
-            if (!pairs || a.state == ST_LISTEN || a.state == ST_CLOSE || a.rport == 0) continue;
+            if (a.state == ST_LISTEN) { queued += (int)a.unacked; continue; }
+            if (!pairs || a.state == ST_CLOSE || a.rport == 0) continue;
             const SockView *b = nullptr;
             for (int j = 0; j < n; ++j) if (j != i && v[j].lport == a.rport && v[j].rport == a.lport) b = &v[j];
             if (b) {
                 if (a.notsent > 0 || b->received < a.sent) busy = true;
                 else if (sent_fin(a.state) && !got_fin(b->state)) busy = true;
-            } else if (!got_fin(a.state)) busy = true;
+            } else if (!got_fin(a.state)) ++unpaired;
         }
+        if (pairs && unpaired > queued) busy = true;
         if (!busy) return;
         if (mono() - t0 > 20.0) { g_settle_timeout = true; return; }
         if (spin > 50) usleep(200); else sched_yield();
